@@ -160,6 +160,13 @@ def strip(n, casts=False):
                 return n
             n = c[0]
             continue
+        if casts and k in ("CXXConstructExpr", "CXXTemporaryObjectExpr"):
+            # copy / move construction of a value: the value itself
+            ct = n.get("ctor") or {}
+            c = n.get("c") or []
+            if (ct.get("copy") or ct.get("move")) and len(c) == 1 and c[0] is not None:
+                n = c[0]
+                continue
         if casts and k in ("CXXFunctionalCastExpr", "CStyleCastExpr", "CXXStaticCastExpr"):
             c = n.get("c") or []
             if len(c) == 1 and c[0] is not None and n.get("ck") in ("IntegralCast", "NoOp", "LValueToRValue",
